@@ -27,6 +27,8 @@ TACTICS_ORDER = [1, 2, 3, 4, 5]  # noqa: WPS407
 # below anything a caller could mean by "contained" (a containment accepted although it fails by 1e-6 made the quotient
 # conjoin guarantees of a component whose assumptions did not hold)
 CONTAINMENT_TOLERANCE = 1e-9
+# ... and never more than this in absolute terms, whatever the size of the bound
+CONTAINMENT_TOLERANCE_CAP = 5e-8
 
 # the decisions taken from LP answers (redundant or not, bounded or not) are only as good as the solver's tolerances: with the
 # defaults (1e-7) HiGHS calls `min -0.001 y  s.t.  -20000 y <= -20000` optimal and misses a constraint that differs from a
@@ -1173,7 +1175,7 @@ class PolyhedralTermList(TermList):  # noqa: WPS338
             else:
                 # the LP optimum carries the solver's round-off: compare with a tolerance, which has to stay
                 # below the relaxation of 1 applied to the constraint in the LP above
-                if -res["fun"] <= b_temp + min(CONTAINMENT_TOLERANCE * (1 + abs(b_temp)), 0.5):  # noqa: WPS309
+                if -res["fun"] <= b_temp + min(CONTAINMENT_TOLERANCE * (1 + abs(b_temp)), CONTAINMENT_TOLERANCE_CAP):  # noqa: WPS309
                     logging.debug("Redundant constraint")
                 else:
                     is_refinement = False
